@@ -41,6 +41,22 @@ theorem ErrOK.congr {e : PErr} {s s' : PState} (h : ErrOK e s) (hs : s'.scan = s
 def GoodMark (src : Array Char) (m : Nat × Bool) : Prop :=
   ∀ sc : Scanner, sc.src = src → sc.pos = m.1 → sc.semi = m.2 → ∃ v, sc.nextToken.1 = .ok v
 
+/-- the scanner, started in some state over `src`, produces exactly this token at this offset -/
+def RealTok (src : Array Char) (p : Nat) (t : Token) : Prop :=
+  ∃ (sc sc' : Scanner), sc.src = src ∧ sc.nextToken = (.ok (some (p, t)), sc')
+
+/-- an optional (offset, token) pair is, if present, a token of the source -/
+def TokReal (src : Array Char) (a : Option (Nat × Token)) : Prop :=
+  ∀ p t, a = some (p, t) → RealTok src p t
+
+theorem TokReal.none {src : Array Char} : TokReal src none := fun _ _ h => by cases h
+
+/-- the scanner, started in some state over `src`, produces exactly this comment token at this offset
+    (so the entry's text is the text of a comment of the source and its offset is where that comment starts) -/
+def RealComment (src : Array Char) (c : Comment) : Prop :=
+  ∃ (sc sc' : Scanner) (t : List Char), sc.src = src ∧
+    sc.nextToken = (.ok (some (c.pos, .comment t)), sc') ∧ c.text = String.ofList t
+
 /-- the part of the invariant that survives a caught error: the source is fixed, and the comment list
     is strictly increasing in position and lies before the scanner position (so every comment is listed
     at most once, in source order) -/
@@ -48,6 +64,8 @@ structure Inv0 (src : Array Char) (s : PState) : Prop where
   src_eq : s.scan.src = src
   sorted : (s.comments.toList.map (·.pos)).Pairwise (· < ·)
   below : ∀ c ∈ s.comments.toList, c.pos < s.scan.pos
+  real : ∀ c ∈ s.comments.toList, RealComment src c
+  cur : TokReal src s.current
 
 /-- the invariant: `Inv0`, and the backtracking mark the parser holds is one from which scanning has
     already succeeded -/
@@ -55,12 +73,18 @@ structure Inv (src : Array Char) (s : PState) : Prop extends Inv0 src s where
   mark : GoodMark src s.prevPos
 
 theorem Inv0.congr {src : Array Char} {s s' : PState} (h : Inv0 src s) (h1 : s'.scan = s.scan)
-    (h2 : s'.comments = s.comments) : Inv0 src s' :=
-  ⟨by rw [h1]; exact h.src_eq, by rw [h2]; exact h.sorted, by rw [h1, h2]; exact h.below⟩
+    (h2 : s'.comments = s.comments) (h3 : s'.current = s.current) : Inv0 src s' :=
+  ⟨by rw [h1]; exact h.src_eq, by rw [h2]; exact h.sorted, by rw [h1, h2]; exact h.below,
+   by rw [h2]; exact h.real, by rw [h3]; exact h.cur⟩
 
 theorem Inv.congr {src : Array Char} {s s' : PState} (h : Inv src s) (h1 : s'.scan = s.scan)
-    (h2 : s'.comments = s.comments) (h3 : s'.prevPos = s.prevPos) : Inv src s' :=
-  ⟨h.toInv0.congr h1 h2, by rw [h3]; exact h.mark⟩
+    (h2 : s'.comments = s.comments) (h3 : s'.prevPos = s.prevPos) (h4 : s'.current = s.current) : Inv src s' :=
+  ⟨h.toInv0.congr h1 h2 h4, by rw [h3]; exact h.mark⟩
+
+/-- setting the current token to a token of the source -/
+theorem Inv.setCurrent {src : Array Char} {s : PState} (h : Inv src s) (c : Option (Nat × Token))
+    (hc : TokReal src c) : Inv src { s with current := c } :=
+  ⟨⟨h.src_eq, h.sorted, h.below, h.real, hc⟩, h.mark⟩
 
 def T {α} (src : Array Char) (R : PState → Prop) (m : P α) (Q : α → PState → Prop) : Prop :=
   ∀ s, Inv src s → R s →
@@ -425,20 +449,22 @@ theorem T.extract {α} {R : PState → Prop} {m : P α} {Q : α → PState → P
 
 /-- a state change that touches neither the scanner, the mark nor the comment list -/
 theorem T.modifyT {R : PState → Prop} (f : PState → PState)
-    (h : ∀ s, (f s).scan = s.scan ∧ (f s).prevPos = s.prevPos ∧ (f s).comments = s.comments) :
+    (h : ∀ s, (f s).scan = s.scan ∧ (f s).prevPos = s.prevPos ∧ (f s).comments = s.comments ∧
+      (f s).current = s.current) :
     T src R (P.modify f) (fun _ _ => True) := by
   intro s hi _
-  obtain ⟨h1, h2, h3⟩ := h s
-  exact ⟨hi.congr h1 h3 h2, trivial⟩
+  obtain ⟨h1, h2, h3, h4⟩ := h s
+  exact ⟨hi.congr h1 h3 h2 h4, trivial⟩
 
 /-- the same, keeping a precondition that the change does not affect -/
 theorem T.modifyF {R : PState → Prop} (f : PState → PState)
-    (h : ∀ s, (f s).scan = s.scan ∧ (f s).prevPos = s.prevPos ∧ (f s).comments = s.comments)
+    (h : ∀ s, (f s).scan = s.scan ∧ (f s).prevPos = s.prevPos ∧ (f s).comments = s.comments ∧
+      (f s).current = s.current)
     (hR : ∀ s, R s → R (f s)) :
     T src R (P.modify f) (fun _ s => R s) := by
   intro s hi hr
-  obtain ⟨h1, h2, h3⟩ := h s
-  exact ⟨hi.congr h1 h3 h2, hR s hr⟩
+  obtain ⟨h1, h2, h3, h4⟩ := h s
+  exact ⟨hi.congr h1 h3 h2 h4, hR s hr⟩
 
 /-- registered specifications (extended with `macro_rules` after each lemma); `hspec` first looks the
     specification up by name: `foo_spec` for a function `foo`, `TblOK.foo` for a table entry `r.foo` -/
@@ -508,8 +534,8 @@ macro_rules
       | with_reducible exact T.bind_never (elseError_spec _ _)
       | with_reducible exact T.bind_never (unexpected_spec _ _ _)
       | with_reducible hspec
-      | with_reducible exact T.modifyF _ (fun _ => ⟨rfl, rfl, rfl⟩) (fun _ h => h)
-      | with_reducible exact T.modifyT _ (fun _ => ⟨rfl, rfl, rfl⟩)
+      | with_reducible exact T.modifyF _ (fun _ => ⟨rfl, rfl, rfl, rfl⟩) (fun _ h => h)
+      | with_reducible exact T.modifyT _ (fun _ => ⟨rfl, rfl, rfl, rfl⟩)
       | with_reducible exact T.pureE _
       | (with_reducible apply All.intro; intro _)
       | (with_reducible apply AllP.intro; intro _ _)
